@@ -392,7 +392,14 @@ func prefixDrains(fn *ssa.Function) (checked []*ssa.Store, bad []drainFinding) {
 				if !ok || !loadOfKey(ia.X, key) {
 					continue
 				}
-				idxRoots := phiRoots(ia.Index, map[ssa.Value]bool{})
+				idxV := ia.Index
+				if bo, isBO := idxV.(*ssa.BinOp); isBO && bo.Op == token.ADD && constIs(bo.Y, "1") {
+					// "for i := range X": the index is the hidden counter plus one
+					if hp, isPhi := bo.X.(*ssa.Phi); isPhi && len(phiRoots(hp, map[ssa.Value]bool{})) == 1 {
+						idxV = hp
+					}
+				}
+				idxRoots := phiRoots(idxV, map[ssa.Value]bool{})
 				if len(idxRoots) == 0 {
 					if ia.Index == ssa.Value(ph) {
 						continue
